@@ -1,5 +1,6 @@
 """C04 - transform strings and Matrix algebra follow SVG/CSS transform semantics."""
 import ast
+import re
 
 from .. import matrixsem as MS
 from ..algebra import Alg, atom, const, ref
@@ -81,10 +82,12 @@ def dispatch(ctx):
         and attr_chain(it.func.value) == ["REGEX_TRANSFORM_TEMPLATE"]
     ctx.need(ok_iter, "R04.1", "Matrix.parse loop does not iterate REGEX_TRANSFORM_TEMPLATE matches")
     lowered = any(isinstance(c, ast.Call) and isinstance(c.func, ast.Attribute) and c.func.attr == "lower" for c in ast.walk(it.args[0]))
-    ctx.ob("R04.1", "Matrix.parse[case folding]", lowered, ast.unparse(it), loop.lineno, "function names match in any letter case only if the string is lower-cased")
+    ctx.ob("R04.1", "Matrix.parse[case folding]", lowered, ast.unparse(it), loop.lineno,
+           "function names AND the units inside the arguments match in any letter case only if the whole string is lower-cased before it is split "
+           "(folding the function name alone leaves '0.25TURN' or '2CM' unrecognised)")
     pat = m.regexes.get("REGEX_TRANSFORM_TEMPLATE")
     ctx.need(pat is not None, "R04.1", "REGEX_TRANSFORM_TEMPLATE pattern not folded")
-    ctx.ob("R04.1", "REGEX_TRANSFORM_TEMPLATE[shape]", pat.startswith("(?u)(" + alts + ")") and pat.endswith(r"\(([^)]+)\)"),
+    ctx.ob("R04.1", "REGEX_TRANSFORM_TEMPLATE[shape]", re.match(r"\(\?[a-z]+\)\(", pat) is not None and pat[pat.index(")") + 1:].startswith("(" + alts + ")") and pat.endswith(r"\(([^)]+)\)"),
            pat[-30:], 0, "template must be (name) ws* ( args )")
     # prefix alternatives: 'translate' before 'translatex' is fine only if the continuation cannot start with the extra char
     cont_first = set(" \t\n\r\f\v(")
@@ -98,7 +101,11 @@ def dispatch(ctx):
     ctx.need(len(chain_if) == 1, "R04.1", "Matrix.parse: dispatch chain not found")
     name_var = None
     for s in loop.body:
-        if isinstance(s, ast.Assign) and isinstance(s.value, ast.Subscript) and isinstance(s.value.slice, ast.Constant) and s.value.slice.value == 0:
+        v = s.value if isinstance(s, ast.Assign) else None
+        # name = sub_element[0]   or   name = sub_element[0].lower()
+        if isinstance(v, ast.Call) and isinstance(v.func, ast.Attribute) and v.func.attr in ("lower", "casefold") and not v.args:
+            v = v.func.value
+        if isinstance(v, ast.Subscript) and isinstance(v.slice, ast.Constant) and v.slice.value == 0 and isinstance(s.targets[0], ast.Name):
             name_var = s.targets[0].id
     ctx.need(name_var is not None, "R04.1", "Matrix.parse: name variable not found")
     branches = {}
